@@ -2,7 +2,7 @@
 from ..core import Run
 from ..facts import Facts
 from .. import hireval as H
-from ..terms import show, walk
+from ..terms import show, walk, params_in, calls
 from ..rules.common import is_err, err_kind
 
 
